@@ -6,6 +6,7 @@
 package gomatrixserverlib
 
 import (
+	"context"
 	"crypto/ed25519"
 	"crypto/sha256"
 	"encoding/base64"
@@ -286,11 +287,57 @@ func c18EvCheck(ctx *vfCtx, c c18EvCase) {
 			} else {
 				ctx.Class("embedded")
 				c18Embed(s, c.Version, un, state, probes, q)
+				c18Cited(s, c.Version, impl, room, un, state, q)
 			}
 		}
 	}
 	if s.ops > 0 {
 		ctx.NonTrivial()
+	}
+}
+
+// c18Cited: the accepted event is CITED in the auth_events of two conflicting, otherwise ordinary
+// events (other servers choose what their events cite): resolution, ordering and the auth-chain
+// walkers look the cited event up and read its type, state key and content.
+func c18Cited(s *c18State, version string, impl IRoomVersion, room *c18Room, ev PDU, state []PDU, q spec.UserIDForSender) {
+	var evID string
+	if s.call("cited/EventID", func() { evID = ev.EventID() }) || evID == "" {
+		return
+	}
+	var citing []PDU
+	for i, role := range []string{"join_rules", "join_rules", "history_visibility"} {
+		e := c18Base(version, room, role, i)
+		e.ID = fmt.Sprintf("$c18citing%d:a.example", i)
+		e.Auth = append([]string{evID}, e.Auth...) // cited first: walkers that stop at the first match reach it
+		tree := c18Finish(version, raJSON(version, e).without("hashes"), false)
+		var p PDU
+		var perr error
+		if s.call("cited/NewEventFromUntrustedJSON", func() { p, perr = impl.NewEventFromUntrustedJSON([]byte(jplain(tree))) }) {
+			return
+		}
+		if !c18Accepted(perr) || p == nil {
+			s.ctx.Class("cited/citing-event-rejected")
+			return
+		}
+		citing = append(citing, p)
+	}
+	s.ctx.Class("cited")
+	all := append(append(append([]PDU{}, state...), ev), citing...)
+	setA := c18Replace(s, c18Replace(s, state, citing[0]), citing[2])
+	setB := c18Replace(s, state, citing[1])
+	s.call("cited/ResolveConflictsNew", func() {
+		_, _ = ResolveConflictsNew(RoomVersion(version), [][]PDU{setA, setB}, append([]PDU{}, all...), q, c18NotRejected)
+	})
+	s.call("cited/ResolveConflicts", func() {
+		_, _ = ResolveConflicts(RoomVersion(version), append(append([]PDU{}, setA...), setB...), append([]PDU{}, all...), q, c18NotRejected)
+	})
+	s.call("cited/ReverseTopologicalOrdering", func() { _ = ReverseTopologicalOrdering(append([]PDU{}, all...), TopologicalOrderByAuthEvents) })
+	pool := c18NewPool(s, all)
+	s.call("cited/VerifyEventAuthChain", func() { _ = VerifyEventAuthChain(context.Background(), citing[0], pool.Provide, q) })
+	s.call("cited/VerifyAuthRulesAtState", func() { _ = VerifyAuthRulesAtState(context.Background(), pool, citing[0], true, q) })
+	var prov *AuthEvents
+	if !s.call("cited/NewAuthEvents", func() { prov, _ = NewAuthEvents(state) }) && prov != nil {
+		s.call("cited/Allowed", func() { _ = Allowed(citing[0], prov, q) })
 	}
 }
 
